@@ -170,6 +170,8 @@ Inductive instr :=
 | IIdxMem (dflt : option N) (add : option N)
 | IIdxTmp                                         (* fs::write(index.json.tmp, payload) *)
 | IIdxRename                                      (* fs::rename(tmp, index.json) *)
+| IIdxRemove                                      (* fs::remove_file(index.json): NOT in rip's save_index; the seeded
+                                                     "clear the destination first" variant (unlink_first below) *)
 | IArtTmp (a : N)
 | IArtRename (a : N)
 | IAck (fid : N)                                  (* ghost: the append of frame fid is acknowledged (the call returns Ok) *)
@@ -213,6 +215,7 @@ Definition exec (s : st) (i : instr) : st :=
          ix_known := match a with Some x => ix_known (midx s) ++ [x] | None => ix_known (midx s) end |}
   | IIdxTmp => upd_idx s (idx s) (Some (midx s)) (midx s)
   | IIdxRename => match idx_tmp s with Some t => upd_idx s (Some t) None (midx s) | None => s end
+  | IIdxRemove => upd_idx s None (idx_tmp s) (midx s)
   | IArtTmp a => upd_arts s (arts s) (a :: art_tmps s)
   | IArtRename a => upd_arts s (a :: arts s) (filter (fun x => negb (x =? a)) (art_tmps s))
   | IAck f => upd_acks s (acks s ++ [f])
@@ -419,6 +422,32 @@ Fixpoint run_k (v : ver) (k : nat) (s : st) (i : N) (ops : list op) : st :=
 (* process death after the first k instructions of the history, then restart *)
 Definition crash (v : ver) (k : nat) (hist : list op) : st := recover (run_k v k init 0 hist).
 
+(* how many operations of the history are complete after its first k instructions (same branching as run_k) *)
+Fixpoint done_ops (v : ver) (k : nat) (s : st) (i : N) (ops : list op) : nat :=
+  match ops with
+  | [] => O
+  | o :: r =>
+    let is := compile v s i o in
+    if Nat.leb k (length is) then O
+    else S (done_ops v (k - length is) (run_instrs s is) (i + 1) r)
+  end.
+
+(* ---------- a code variant as a program transformer: the same operations with every program rewritten by `tr` ----------
+   unlink_first = "rename() does not replace an existing destination on every platform: clear it first"
+   (fs::remove_file(path) inserted before fs::rename(tmp, path), the pattern local_authority.rs uses): the atomic
+   replace of index.json becomes two effects *)
+Definition unlink_first (is : list instr) : list instr :=
+  flat_map (fun i => match i with IIdxRename => [IIdxRemove; IIdxRename] | _ => [i] end) is.
+Fixpoint run_kx (tr : list instr -> list instr) (v : ver) (k : nat) (s : st) (i : N) (ops : list op) : st :=
+  match ops with
+  | [] => s
+  | o :: r =>
+    let is := tr (compile v s i o) in
+    if Nat.leb k (length is) then run_instrs s (firstn k is)
+    else run_kx tr v (k - length is) (run_instrs s is) (i + 1) r
+  end.
+Definition crashx (tr : list instr -> list instr) (v : ver) (k : nat) (hist : list op) : st := recover (run_kx tr v k init 0 hist).
+
 (* ---------- correspondence ---------- *)
 Definition is_pt (i : instr) : option N := match i with IPt t => Some t | _ => None end.
 
@@ -448,9 +477,18 @@ Definition enc_file (ch : list chunk) : list N :=
   let ls := lines ch in
   nlen ls :: concat (map (fun l => nlen l :: concat (map (fun f => [f_sid f; f_seq f; f_fid f]) l)) ls)
   ++ [if torn ch then 1 else 0].
+(* index.json / index.json.tmp: present?, default thread + 1 (0 = none), for each thread: listed? *)
+Definition enc_idx (o : option idxv) (nthreads : nat) : list N :=
+  match o with
+  | None => [0]
+  | Some x =>
+    1 :: match ix_default x with Some d => d + 1 | None => 0 end
+      :: map (fun c => if existsb (N.eqb (N.of_nat c)) (ix_known x) then 1 else 0) (seq 0 nthreads)
+  end.
 Definition enc_disk (s : st) (nthreads : nat) : list N :=
   enc_file (truth s)
-  ++ concat (map (fun c => match get (N.of_nat c) (sides s) with None => [0] | Some ch => 1 :: enc_file ch end) (seq 0 nthreads)).
+  ++ concat (map (fun c => match get (N.of_nat c) (sides s) with None => [0] | Some ch => 1 :: enc_file ch end) (seq 0 nthreads))
+  ++ enc_idx (idx s) nthreads ++ enc_idx (idx_tmp s) nthreads.
 
 Definition has_ok (is : list instr) : bool := existsb (fun i => match i with IOk => true | _ => false end) is.
 Fixpoint run_ops_res (v : ver) (s : st) (i : N) (ops : list op) : st * list N :=
@@ -486,7 +524,7 @@ Definition instr_code (i : instr) : list N :=
   | IPt t => [t]
   | ITruthWrite _ => [101] | ITruthFlush => [102]
   | ISideOpen _ => [103] | ISideWrite _ _ => [104] | ISideFlush _ => [105]
-  | ISetNext _ _ => [106] | IIdxMem _ _ => [107] | IIdxTmp => [108] | IIdxRename => [109]
+  | ISetNext _ _ => [106] | IIdxMem _ _ => [107] | IIdxTmp => [108] | IIdxRename => [109] | IIdxRemove => [114]
   | IArtTmp _ => [110] | IArtRename _ => [111] | ISideCreate _ => [112] | ISideRemove _ => [113]
   | IAck _ | IOk => []
   end.
